@@ -95,11 +95,12 @@ class Sequence(AbstractSequence):
 
         if self.parent is not None and self.parent.location is not None:
             if isinstance(key, slice):
-                rel_start = key.start
-                rel_end = key.stop
+                # normalize open-ended and negative slice bounds the way str slicing does
+                rel_start, rel_end, _ = key.indices(len(self))
+                rel_end = max(rel_start, rel_end)
             else:
-                rel_start = key
-                rel_end = key + 1
+                rel_start = key if key >= 0 else key + len(self)
+                rel_end = rel_start + 1
             new_parent_location = self.parent.location.relative_interval_to_parent_location(
                 relative_start=rel_start, relative_end=rel_end, relative_strand=Strand.PLUS
             )
